@@ -49,8 +49,12 @@ func WalkNodes(root *html.Node, fnVisit func(*html.Node) bool, fnExit func(*html
 		return
 	}
 
-	for child := root.FirstChild; child != nil; child = child.NextSibling {
+	// The next sibling is read before visiting the child, because the visitor
+	// is allowed to detach or replace the node that it is visiting.
+	for child := root.FirstChild; child != nil; {
+		next := child.NextSibling
 		WalkNodes(child, fnVisit, fnExit)
+		child = next
 	}
 
 	if fnExit != nil {
